@@ -3,11 +3,15 @@
     ONLY theorem statements (written out in full), each closed by [exact <lemma>] and followed by
     [Print Assumptions].  [gen_mca_facts] is REGENERATED from /repo/src/mxlpy/mca.py on every run
     (displacement defaults; the ordered model-touching statements of variable_elasticities,
-    parameter_elasticities and _response_coefficient_worker; the shape of the difference quotients);
-    [C18_facts_pinned] is the obligation that breaks when one of them is edited. *)
+    parameter_elasticities and _response_coefficient_worker; the displacement rule / shape of the
+    difference quotients); [C18_facts_pinned] is the obligation that breaks when one of them is
+    edited.  [C18_expected_quot] (ExpectedFacts.v, switched by tools/c18_switch.py together with the
+    fix: commit) says which displacement rule the tree is expected to have: QuotCentralRel (the
+    snapshot; C18_zero_state_refuted describes the tree) or QuotCentralRelAbs0 (after
+    fixes/C18-zero-state.diff; the C18_zero_state_repaired_* theorems describe the tree). *)
 From Coq Require Import QArith List NArith Bool Reals.
 From MxlBase Require Import ListX.
-From Mca Require Import Mca GenMcaFacts McaAlgebra McaRestore McaPowerLaw.
+From Mca Require Import Mca GenMcaFacts ExpectedFacts McaAlgebra McaZero McaRestore McaSchedule McaPowerLaw McaMoebius McaEndToEnd.
 Import ListNotations.
 Open Scope Q_scope.
 
@@ -19,7 +23,7 @@ Theorem C18_facts_pinned :
     [SReadOld; SSaveY0; SApplyY0; SSetPar Up; SObserve; SSetPar Down; SObserve;
      SView 0; SView 1; SView 0; SView 1; SSetPar Back; SObserveIfNorm; SViewIfNorm 2; SViewIfNorm 2;
      SRestoreY0]
-    QuotCentralRel.
+    C18_expected_quot.
 Proof. vm_compute. reflexivity. Qed.
 Print Assumptions C18_facts_pinned.
 
@@ -91,29 +95,236 @@ Theorem C18_response_reciprocal :
 Proof. exact coef_cell_reciprocal. Qed.
 Print Assumptions C18_response_reciprocal.
 
+(** ---- response coefficients of the mass-action families with a closed-form steady state ------- *)
+
+(** A steady-state concentration or flux that depends on the scanned rate constant k as a Moebius
+    function (a + b k) / (e + g k) -- every such quantity of the linear chain, the branch point and
+    the conserved cycle (C18_families_are_moebius): the cell, unscaled and scaled, satisfies EXACTLY
+        cell * (1 - rho^2 d^2) = f'(k)   resp.   k f'(k) / f(k),      rho = g k / (e + g k). *)
+Theorem C18_response_moebius :
+  forall (a b e g k d : Q) (normalized : bool),
+    ~ k == 0 -> ~ d == 0 -> ~ e + g * k == 0 ->
+    ~ e + g * (k * (1 + d)) == 0 -> ~ e + g * (k * (1 - d)) == 0 ->
+    (normalized = true -> ~ a + b * k == 0) ->
+    exists v,
+      coef_cell (moebius a b e g (k * (1 + d))) (moebius a b e g (k * (1 - d))) (moebius a b e g k) k d normalized
+      = Some v
+      /\ v * (1 - mrho e g k * mrho e g k * (d * d))
+         == (if normalized then k * mderiv a b e g k / moebius a b e g k else mderiv a b e g k).
+Proof. exact coef_cell_moebius. Qed.
+Print Assumptions C18_response_moebius.
+
+(** for non-negative coefficients and a positive rate constant every denominator is non-zero and
+    0 <= rho <= 1 ... *)
+Theorem C18_moebius_positive :
+  forall (e g k d : Q), 0 <= e -> 0 <= g -> 0 < k -> 0 < e + g * k -> -1 < d -> d < 1 ->
+    ~ e + g * k == 0 /\ ~ e + g * (k * (1 + d)) == 0 /\ ~ e + g * (k * (1 - d)) == 0
+    /\ 0 <= mrho e g k /\ mrho e g k <= 1.
+Proof. exact moebius_positive. Qed.
+Print Assumptions C18_moebius_positive.
+
+(** ... so the cell is the analytic sensitivity t up to a relative error in [0, d^2 / (1 - d^2)]
+    (1.00000001e-8 at the default displacement) *)
+Theorem C18_moebius_error_bound :
+  forall (v t r d : Q), 0 <= r -> r <= 1 -> d * d < 1 ->
+    v * (1 - r * r * (d * d)) == t ->
+    exists err, v == t * (1 + err) /\ 0 <= err /\ err <= d * d / (1 - d * d).
+Proof. exact moebius_error_bound. Qed.
+Print Assumptions C18_moebius_error_bound.
+
+(** the analytic side: d/dk (a + b k) / (e + g k) = (b e - a g) / (e + g k)^2  ([mderiv]) *)
+Theorem C18_moebius_derivative_R :
+  forall (a b e g k : R), (e + g * k <> 0)%R ->
+    derivable_pt_lim (fun t => (a + b * t) / (e + g * t))%R k
+      ((b * e - a * g) / ((e + g * k) * (e + g * k)))%R.
+Proof. exact moebius_derivative_R. Qed.
+Print Assumptions C18_moebius_derivative_R.
+
+(** the steady-state MAP of the families is the closed form: linear chain -> x1 -> ... -> xn ->
+    (v0 = k0, v_i = k_i x_i), any length: the closed form x_i = k0 / k_i is a steady state, every
+    flux equals k0 there, and it is the only steady state *)
+Theorem C18_chain_steady_state :
+  forall (k0 : Q) (ks : list Q), Forall (fun k => ~ k == 0) ks ->
+    (Forall (fun r => r == 0) (chain_rhs k0 ks (chain_steady k0 ks))
+     /\ Forall (fun v => v == k0) (chain_fluxes ks (chain_steady k0 ks)))
+    /\ (forall xs, length xs = length ks -> Forall (fun r => r == 0) (chain_rhs k0 ks xs) ->
+          Forall2 Qeq xs (chain_steady k0 ks)).
+Proof.
+  exact (fun k0 ks H =>
+           conj (chain_steady_is_steady k0 ks H k0 (Qeq_refl k0))
+                (fun xs Hl Hr => chain_steady_unique k0 ks H k0 xs (Qeq_refl k0) Hl Hr)).
+Qed.
+Print Assumptions C18_chain_steady_state.
+
+(** branch point -> x, x -> (k1 x), x -> (k2 x), and the conserved cycle x0 <-> x1 with total T *)
+Theorem C18_branch_cycle_steady_state :
+  (forall k0 k1 k2 x, ~ k1 + k2 == 0 ->
+     (branch_rhs k0 k1 k2 x == 0 <-> x == branch_steady k0 k1 k2))
+  /\ (forall k0 k1 T x0 x1, ~ k0 + k1 == 0 -> x0 + x1 == T ->
+        (fst (cycle_rhs k0 k1 x0 x1) == 0 /\ snd (cycle_rhs k0 k1 x0 x1) == 0
+         <-> x0 == fst (cycle_steady k0 k1 T) /\ x1 == snd (cycle_steady k0 k1 T))).
+Proof. exact (conj branch_steady_iff cycle_steady_iff). Qed.
+Print Assumptions C18_branch_cycle_steady_state.
+
+(** every steady-state concentration and flux of the three families is a Moebius function of each
+    rate constant (the remaining pairs by the symmetry k1 <-> k2 / x0 <-> x1; a dependence on k0 is
+    linear, g = 0, rho = 0: the central difference is exact) *)
+Theorem C18_families_are_moebius :
+  (forall k0 k, ~ k == 0 -> k0 / k == moebius k0 0 0 1 k /\ k0 / k == moebius 0 1 k 0 k0)
+  /\ (forall k0 k1 k2, ~ k1 + k2 == 0 ->
+        let x := branch_steady k0 k1 k2 in
+        x == moebius k0 0 k2 1 k1 /\ k1 * x == moebius 0 k0 k2 1 k1 /\ k2 * x == moebius (k2 * k0) 0 k2 1 k1
+        /\ x == moebius 0 1 (k1 + k2) 0 k0 /\ k1 * x == moebius 0 k1 (k1 + k2) 0 k0)
+  /\ (forall k0 k1 T, ~ k0 + k1 == 0 ->
+        fst (cycle_steady k0 k1 T) == moebius 0 T k0 1 k1
+        /\ fst (cycle_steady k0 k1 T) == moebius (T * k1) 0 k1 1 k0
+        /\ k0 * fst (cycle_steady k0 k1 T) == moebius 0 (T * k1) k1 1 k0).
+Proof. exact (conj chain_is_moebius (conj branch_is_moebius cycle_is_moebius)). Qed.
+Print Assumptions C18_families_are_moebius.
+
+(** end to end for the branch point, positive rate constants: the scaled concentration response
+    coefficient of x = k0/(k1+k2) w.r.t. k1 is -k1/(k1+k2), the scaled FLUX response coefficient of
+    J1 = k1 x w.r.t. k1 is k2/(k1+k2), each up to a relative error in [0, d^2/(1-d^2)] *)
+Theorem C18_response_branched :
+  forall (k0 k1 k2 d : Q), 0 < k0 -> 0 < k1 -> 0 < k2 -> ~ d == 0 -> -1 < d -> d < 1 ->
+    let f a b := moebius a b k2 1 in
+    let cellof a b := coef_cell (f a b (k1 * (1 + d))) (f a b (k1 * (1 - d))) (f a b k1) k1 d true in
+    exists vx v1 ex e1,
+      cellof k0 0 = Some vx /\ vx == - (k1 / (k1 + k2)) * (1 + ex)
+      /\ cellof 0 k0 = Some v1 /\ v1 == k2 / (k1 + k2) * (1 + e1)
+      /\ 0 <= ex /\ ex <= d * d / (1 - d * d) /\ 0 <= e1 /\ e1 <= d * d / (1 - d * d).
+Proof. exact branch_response. Qed.
+Print Assumptions C18_response_branched.
+
+(** ... and COMPOSED with the routine: the worker's regenerated statement list run on the branch-point
+    model (parameters 200, 201, 202 = k0, k1, k2 > 0, variable 100, any initial value, any y0 over
+    that variable), the steady-state function of the family ([ss_branch]: the closed form, the
+    unique steady state) and the column arithmetic of [worker_columns]: the worker for k1 hands the
+    model back unchanged and returns exactly one concentration cell and three flux cells,
+        C(x, k1) = -k1/(k1+k2) (1+ex),  C(J0, k1) = 0,  C(J1, k1) = k2/(k1+k2) (1+e1),
+        C(J2, k1) = -k1/(k1+k2) (1+e2),       0 <= ex, e1, e2 <= d^2/(1-d^2). *)
+Theorem C18_branch_end_to_end :
+  forall (k0 k1 k2 x0 d : Q) (y0 : option alist),
+    0 < k0 -> 0 < k1 -> 0 < k2 -> ~ d == 0 -> -1 < d -> d < 1 ->
+    (forall y, y0 = Some y -> forallb (fun kv => has (fst kv) [(100%N, x0)]) y = true) ->
+    let st := mkState [(200%N, k0); (201%N, k1); (202%N, k2)] [(100%N, x0)] in
+    exists rg vx vj0 vj1 vj2 ex e1 e2,
+      worker gen_mca_facts d true y0 201%N st = Some (st, rg)
+      /\ worker_columns gen_mca_facts ss_branch d true rg = Some ([Some vx], [Some vj0; Some vj1; Some vj2])
+      /\ vx == - (k1 / (k1 + k2)) * (1 + ex)
+      /\ vj0 == 0
+      /\ vj1 == k2 / (k1 + k2) * (1 + e1)
+      /\ vj2 == - (k1 / (k1 + k2)) * (1 + e2)
+      /\ 0 <= ex /\ ex <= d * d / (1 - d * d)
+      /\ 0 <= e1 /\ e1 <= d * d / (1 - d * d)
+      /\ 0 <= e2 /\ e2 <= d * d / (1 - d * d).
+Proof.
+  exact (fun k0 k1 k2 x0 d y0 =>
+           branch_end_to_end gen_mca_facts k0 k1 k2 x0 d y0 (f_equal f_worker_prog C18_facts_pinned)).
+Qed.
+Print Assumptions C18_branch_end_to_end.
+
+(** Under EVERY displacement rule the cell at a non-zero value is the relative one, so the four
+    theorems above describe the tree whichever rule [C18_facts_pinned] pins. *)
+Theorem C18_rule_agrees_off_zero :
+  forall (q : quot_kind) (up lo base x d : Q) (normalized : bool), ~ x == 0 ->
+    disp_up q x d = x * (1 + d) /\ disp_lo q x d = x * (1 - d)
+    /\ coef_cell_q q up lo base x d normalized = coef_cell up lo base x d normalized.
+Proof.
+  exact (fun q up lo base x d normalized H =>
+           match disp_nonzero q x d H with
+           | conj U (conj L _) => conj U (conj L (coef_cell_q_nonzero q up lo base x d normalized H))
+           end).
+Qed.
+Print Assumptions C18_rule_agrees_off_zero.
+
 (** FULL statement "elasticities equal the partial derivatives at the given state" is FALSE of the
-    code at a zero value: the relative displacement of 0 is 0, every cell of the column is NaN
-    (recorded finding c18-zero-state; the guard of C18_coefficient_power_law is  x <> 0). *)
+    RELATIVE rule (QuotCentralRel, the tree up to d0000dc) at a zero value: the relative displacement
+    of 0 is 0, every cell of the column is NaN (finding c18-zero-state; the guard of
+    C18_coefficient_power_law is  x <> 0).  Kept as the regression theorem once the repair is in. *)
 Theorem C18_zero_state_refuted :
   (forall up lo base d normalized, coef_cell up lo base 0 d normalized = None)
+  /\ (forall up lo base x d normalized, x == 0 -> coef_cell_q QuotCentralRel up lo base x d normalized = None)
   /\ exists net pars vars x,
        pl_fluxes net pars vars = Some [0; 2]               (* v0 = k0 * x0 = 0, dv0/dx0 = k0 = 2 *)
-       /\ var_column (pl_fluxes net) (1 # 10000) false pars vars x = Some [None; None].
+       /\ var_column (mkFacts [] [] [] [] QuotCentralRel) (pl_fluxes net) (1 # 10000) false pars vars x
+          = Some [None; None].
 Proof.
-  exact (conj coef_cell_zero_state
+  exact (conj coef_cell_zero_state (conj coef_cell_rel_zero
           (ex_intro _ [[(200%N, 1%nat); (100%N, 1%nat)]; [(201%N, 1%nat); (101%N, 1%nat)]]
             (ex_intro _ [(200%N, 2); (201%N, 1)]
               (ex_intro _ [(100%N, 0); (101%N, 2)]
-                (ex_intro _ 100%N (conj eq_refl eq_refl)))))).
+                (ex_intro _ 100%N (conj eq_refl eq_refl))))))).
 Qed.
 Print Assumptions C18_zero_state_refuted.
+
+(** The REPAIRED rule (QuotCentralRelAbs0 = fixes/C18-zero-state.diff: a value that is exactly 0 is
+    displaced by +-d in absolute terms, divisor 2 d).  The unscaled coefficient of  c * v^n  at EVERY
+    value x -- no guard: the closed formula off zero and at zero, and EXACTLY the partial derivative
+    n c x^(n-1)  for orders <= 2 (at x = 0: 0, c, 0). *)
+Theorem C18_zero_state_repaired_unscaled :
+  forall (c x d : Q) (n : nat), ~ d == 0 ->
+    exists v,
+      coef_cell_q QuotCentralRelAbs0
+        (c * qpow (disp_up QuotCentralRelAbs0 x d) n) (c * qpow (disp_lo QuotCentralRelAbs0 x d) n)
+        (c * qpow x n) x d false = Some v
+      /\ (~ x == 0 -> v == c * qpow x (pred n) * sdiff n (d * d))
+      /\ (x == 0 -> v == c * zdiff n (d * d))
+      /\ ((n <= 2)%nat -> v == c * qnat n * qpow x (pred n)).
+Proof. exact coef_cell_abs0_unscaled. Qed.
+Print Assumptions C18_zero_state_repaired_unscaled.
+
+(** ... and for every order the error against the partial derivative (d^2 <= 1):
+    off zero  v = c x^(n-1) (n + e), 0 <= e <= 2^n d^2;  at zero, n >= 3 (derivative 0)  v = c e, 0 <= e <= d^2 *)
+Theorem C18_zero_state_repaired_error :
+  forall (c x d : Q) (n : nat), ~ d == 0 -> d * d <= 1 ->
+    exists v e,
+      coef_cell_q QuotCentralRelAbs0
+        (c * qpow (disp_up QuotCentralRelAbs0 x d) n) (c * qpow (disp_lo QuotCentralRelAbs0 x d) n)
+        (c * qpow x n) x d false = Some v
+      /\ 0 <= e
+      /\ (~ x == 0 -> v == c * qpow x (pred n) * (qnat n + e) /\ e <= qpow 2 n * (d * d))
+      /\ (x == 0 -> (3 <= n)%nat -> v == c * e /\ e <= d * d).
+Proof. exact coef_cell_abs0_unscaled_error. Qed.
+Print Assumptions C18_zero_state_repaired_error.
+
+(** the SCALED coefficient value/flux * dv/dx at a zero value: 0 = the kinetic order when the flux does
+    not vanish there (order 0); for order >= 1 the flux is 0 and value/flux has no value -- the cell is
+    NaN under the repaired rule as well, legitimately (the property's "scaled partial derivative" is
+    0/0 there); the oracle does not judge those cells *)
+Theorem C18_zero_state_repaired_scaled :
+  forall (c x d : Q) (n : nat), x == 0 -> ~ d == 0 ->
+    (n = 0%nat -> ~ c == 0 ->
+       exists v, coef_cell_q QuotCentralRelAbs0
+                   (c * qpow (disp_up QuotCentralRelAbs0 x d) n) (c * qpow (disp_lo QuotCentralRelAbs0 x d) n)
+                   (c * qpow x n) x d true = Some v /\ v == 0)
+    /\ ((1 <= n)%nat ->
+        coef_cell_q QuotCentralRelAbs0
+          (c * qpow (disp_up QuotCentralRelAbs0 x d) n) (c * qpow (disp_lo QuotCentralRelAbs0 x d) n)
+          (c * qpow x n) x d true = None).
+Proof. exact coef_cell_abs0_zero_scaled. Qed.
+Print Assumptions C18_zero_state_repaired_scaled.
+
+(** the witness network of the finding under the repaired rule: the x0 column is [k0; 0] = [2; 0],
+    the x1 column (non-zero value) is what the relative rule gives *)
+Theorem C18_zero_state_repaired_witness :
+  let net := [[(200%N, 1%nat); (100%N, 1%nat)]; [(201%N, 1%nat); (101%N, 1%nat)]] in
+  let f := mkFacts [] [] [] [] QuotCentralRelAbs0 in
+  option_map (list_eqb cell_eqb [Some 2; Some 0])
+    (var_column f (pl_fluxes net) (1 # 10000) false [(200%N, 2); (201%N, 1)] [(100%N, 0); (101%N, 2)] 100%N)
+  = Some true
+  /\ option_map (list_eqb cell_eqb [Some 0; Some 1])
+       (var_column f (pl_fluxes net) (1 # 10000) false [(200%N, 2); (201%N, 1)] [(100%N, 0); (101%N, 2)] 101%N)
+     = Some true.
+Proof. exact abs0_witness. Qed.
+Print Assumptions C18_zero_state_repaired_witness.
 
 (** ---- the model is left as it was found ----------------------------------------------------- *)
 
 (** variable_elasticities only reads the model *)
 Theorem C18_variable_elasticities_pure :
-  forall p y0 nrm d st st' rg,
-    exec_prog p y0 nrm d (f_var_prog gen_mca_facts) st regs0 = Some (st', rg) -> st' = st.
+  forall q p y0 nrm d st st' rg,
+    exec_prog q p y0 nrm d (f_var_prog gen_mca_facts) st regs0 = Some (st', rg) -> st' = st.
 Proof. exact (var_prog_pure_facts gen_mca_facts (f_equal f_var_prog C18_facts_pinned)). Qed.
 Print Assumptions C18_variable_elasticities_pure.
 
@@ -132,7 +343,9 @@ Print Assumptions C18_parameter_elasticities_restore.
 
 (** one response-coefficient worker: the model is restored (parameters AND initial values, with or
     without y0), and the steady-state runs see exactly: parameter p scaled by (1+d), by (1-d), and
-    (when normalising) unscaled; all other parameters untouched; y0 applied *)
+    (when normalising) unscaled -- [disp_up]/[disp_lo] of the tree's displacement rule, which are
+    p * (1 + d), p * (1 - d) whenever p <> 0 (C18_rule_agrees_off_zero); all other parameters
+    untouched; y0 applied *)
 Theorem C18_worker_restores :
   forall p y0 nrm d st st' rg,
     NoDup (keys (st_pars st)) -> NoDup (keys (st_inits st)) ->
@@ -140,7 +353,8 @@ Theorem C18_worker_restores :
     st' = st /\ exists old, get p (st_pars st) = Some old /\ r_old rg = Some old /\
       r_obs rg =
         (let i := match y0 with Some y => set_all y (st_inits st) | None => st_inits st end in
-         [mkState (set p (old * (1 + d)) (st_pars st)) i; mkState (set p (old * (1 - d)) (st_pars st)) i]
+         [mkState (set p (disp_up (f_quot gen_mca_facts) old d) (st_pars st)) i;
+          mkState (set p (disp_lo (f_quot gen_mca_facts) old d) (st_pars st)) i]
          ++ (if nrm then [mkState (st_pars st) i] else [])).
 Proof. exact (worker_restores_facts gen_mca_facts (f_equal f_worker_prog C18_facts_pinned)). Qed.
 Print Assumptions C18_worker_restores.
@@ -173,21 +387,88 @@ Theorem C18_seq_equals_par :
     NoDup (keys (st_pars st)) -> NoDup (keys (st_inits st)) ->
     resp_seq gen_mca_facts d nrm y0 scan st = resp_par gen_mca_facts d nrm y0 scan st
     /\ (forall (ss : alist -> alist -> option (list Q * list Q)),
-          option_map (fun r => resp_result ss d nrm (snd r)) (resp_seq gen_mca_facts d nrm y0 scan st)
-          = option_map (fun r => resp_result ss d nrm (snd r)) (resp_par gen_mca_facts d nrm y0 scan st)).
+          option_map (fun r => resp_result gen_mca_facts ss d nrm (snd r)) (resp_seq gen_mca_facts d nrm y0 scan st)
+          = option_map (fun r => resp_result gen_mca_facts ss d nrm (snd r)) (resp_par gen_mca_facts d nrm y0 scan st)).
 Proof.
   exact (fun d nrm y0 scan st Hp Hi =>
            let E := resp_seq_eq_par gen_mca_facts d nrm y0 scan st (f_equal f_worker_prog C18_facts_pinned) Hp Hi in
-           conj E (fun ss => f_equal (option_map (fun r => resp_result ss d nrm (snd r))) E)).
+           conj E (fun ss => f_equal (option_map (fun r => resp_result gen_mca_facts ss d nrm (snd r))) E)).
 Qed.
 Print Assumptions C18_seq_equals_par.
+
+(** EVERY schedule.  response_coefficients hands the worker (a function object that carries the
+    model) and the parameter names to the pool; [resp_chunks] cuts the inputs into arbitrary chunks,
+    gives every chunk its own copy of the caller's model and runs the tasks of a chunk one after the
+    other on that copy.  Whatever the chunking, the results are those of the sequential run ... *)
+Theorem C18_schedule_independent :
+  forall d nrm y0 (chunks : list (list name)) st,
+    NoDup (keys (st_pars st)) -> NoDup (keys (st_inits st)) ->
+    resp_chunks gen_mca_facts d nrm y0 chunks st
+    = option_map snd (resp_seq gen_mca_facts d nrm y0 (concat chunks) st).
+Proof. exact (resp_chunks_eq_seq gen_mca_facts (f_equal f_worker_prog C18_facts_pinned)). Qed.
+Print Assumptions C18_schedule_independent.
+
+(** ... because every task is a function of (content of the caller's model, parameter name) alone:
+    each result of each schedule is the worker run on a fresh copy of the caller's model (this is
+    where the restore of parameters AND initial values after every task, d0000dc, is used) *)
+Theorem C18_tasks_independent :
+  forall d nrm y0 (chunks : list (list name)) st,
+    NoDup (keys (st_pars st)) -> NoDup (keys (st_inits st)) ->
+    resp_chunks gen_mca_facts d nrm y0 chunks st
+    = opt_map (fun p => option_map (fun r => (p, snd r)) (worker gen_mca_facts d nrm y0 p st)) (concat chunks).
+Proof. exact (resp_chunks_tasks_independent gen_mca_facts (f_equal f_worker_prog C18_facts_pinned)). Qed.
+Print Assumptions C18_tasks_independent.
+
+(** [resp_par] (C18_seq_equals_par) is the schedule with one task per chunk *)
+Theorem C18_par_is_singleton_schedule :
+  forall facts d nrm y0 scan st,
+    resp_par facts d nrm y0 scan st
+    = option_map (fun rs => (st, rs)) (resp_chunks facts d nrm y0 (map (fun p => [p]) scan) st).
+Proof. exact resp_par_is_singleton_chunks. Qed.
+Print Assumptions C18_par_is_singleton_schedule.
+
+(** regression: with the worker BEFORE d0000dc the two executions are distinguishable (the sequential
+    run hands the model back with y0 in place, the pool does not) ... *)
+Theorem C18_unrepaired_seq_differs_from_par :
+  exists d nrm y0 scan st st' rs rs',
+    NoDup (keys (st_pars st)) /\ NoDup (keys (st_inits st)) /\
+    resp_seq (mkFacts [] [] []
+                [SReadOld; SApplyY0; SSetPar Up; SObserve; SSetPar Down; SObserve;
+                 SView 0; SView 1; SView 0; SView 1; SSetPar Back; SObserveIfNorm; SViewIfNorm 2; SViewIfNorm 2]
+                QuotCentralRel) d nrm (Some y0) scan st = Some (st', rs) /\
+    resp_par (mkFacts [] [] []
+                [SReadOld; SApplyY0; SSetPar Up; SObserve; SSetPar Down; SObserve;
+                 SView 0; SView 1; SView 0; SView 1; SSetPar Back; SObserveIfNorm; SViewIfNorm 2; SViewIfNorm 2]
+                QuotCentralRel) d nrm (Some y0) scan st = Some (st, rs') /\
+    st_inits st' <> st_inits st.
+Proof. exact unrepaired_seq_differs_from_par. Qed.
+Print Assumptions C18_unrepaired_seq_differs_from_par.
+
+(** ... and with a worker that forms the quotients after the reset (the lazy result views re-apply
+    the parameters of the lower run) the unscaled sequential run differs from the pool in the final
+    model AND in what the steady-state runs see, i.e. in the coefficients *)
+Theorem C18_views_after_reset_seq_differs_from_par :
+  exists d scan st st' rs rs',
+    NoDup (keys (st_pars st)) /\ NoDup (keys (st_inits st)) /\
+    resp_seq (mkFacts [] [] []
+                [SReadOld; SSaveY0; SApplyY0; SSetPar Up; SObserve; SSetPar Down; SObserve; SSetPar Back;
+                 SObserveIfNorm; SRestoreY0; SView 0; SView 1; SView 0; SView 1; SViewIfNorm 2; SViewIfNorm 2]
+                QuotCentralRel) d false None scan st = Some (st', rs) /\
+    resp_par (mkFacts [] [] []
+                [SReadOld; SSaveY0; SApplyY0; SSetPar Up; SObserve; SSetPar Down; SObserve; SSetPar Back;
+                 SObserveIfNorm; SRestoreY0; SView 0; SView 1; SView 0; SView 1; SViewIfNorm 2; SViewIfNorm 2]
+                QuotCentralRel) d false None scan st = Some (st, rs') /\
+    st_pars st' <> st_pars st /\
+    map (fun r => r_obs (snd r)) rs <> map (fun r => r_obs (snd r)) rs'.
+Proof. exact views_after_reset_seq_differs_from_par. Qed.
+Print Assumptions C18_views_after_reset_seq_differs_from_par.
 
 (** the statement list of the worker BEFORE the repair (fixes/C18-restore-initial-values.diff) does
     not have the property: sequential response_coefficients(variables={x0: 5}) leaves x0 = 5 *)
 Theorem C18_unrepaired_worker_refuted :
   exists p y0 st st' rg,
     NoDup (keys (st_pars st)) /\ NoDup (keys (st_inits st)) /\
-    exec_prog p (Some y0) true (1 # 10000)
+    exec_prog QuotCentralRel p (Some y0) true (1 # 10000)
       [SReadOld; SApplyY0; SSetPar Up; SObserve; SSetPar Down; SObserve;
        SView 0; SView 1; SView 0; SView 1; SSetPar Back; SObserveIfNorm; SViewIfNorm 2; SViewIfNorm 2]
       st regs0 = Some (st', rg) /\
@@ -201,7 +482,7 @@ Example C18_nonvacuous :
   let net := [[(200%N, 1%nat); (100%N, 1%nat)]; [(201%N, 1%nat); (100%N, 3%nat)]] in
   let st := mkState [(200%N, 2); (201%N, 1 # 2)] [(100%N, 2)] in
   option_map (fun t => table_eqb t [(100%N, [Some 1; Some (49 # 16)])])
-    (var_elast (pl_fluxes net) (1 # 4) true None [100%N] st) = Some true
+    (var_elast gen_mca_facts (pl_fluxes net) (1 # 4) true None [100%N] st) = Some true
   /\ (exists rg, worker gen_mca_facts (1 # 4) true (Some [(100%N, 5)]) 201%N st = Some (st, rg)
                  /\ length (r_obs rg) = 3%nat).
 Proof.
